@@ -510,3 +510,13 @@ Definition ids_consistent (l : list (bytes * N)) : bool :=
 
 Definition kill_oracle_bad (cs : list (N * kcase)) : list N :=
   map fst (filter (fun c => negb (ids_consistent (named_ids (fst (snd c)) (snd (snd c))))) cs).
+
+(* the oracle on the contents, for histories in which the process is only ever killed outright, after every
+   operation so far has been acknowledged ([HKill 0 Reopen]): with the identifiers erased the answers are the
+   specification's, i.e. every acknowledged operation is still there after the kill *)
+Definition only_outright (hs : list hop) : bool :=
+  forallb (fun h => match h with HOp _ => true | HKill 0 Reopen => true | HKill _ _ => false end) hs.
+Definition as_sop (h : hop) : sop := match h with HOp o => o | HKill _ _ => Reopen end.
+Definition kill_spec_bad (cs : list (N * kcase)) : list N :=
+  map fst (filter (fun c => only_outright (fst (snd c)) &&
+                            negb (spec_run [] (map as_sop (fst (snd c))) (snd (snd c)) [])) cs).
